@@ -189,6 +189,34 @@ def run(ctx, config='rel-all'):
     # ---- R6 no abort: unchecked Layout construction in the arena is justified (an invalid Layout is a non-unwinding
     # precondition panic in debug builds and undefined behaviour in release builds); shared with C19.R5
     c19.check_unchecked_layouts(ctx, db, config, 'R6', lambda sp: sp.startswith('src/lib.rs') or sp.startswith('src/alloc.rs'))
+    # ---- R7 'when it returns Err ... its live blocks are intact': the Err arms of the fallible initialiser methods rewind only
+    # what they reserved (the obligations of C11)
+    from .. import runner
+    from . import c11
+    c11.run(runner.Sub(ctx, 'R7', 'C11'), config)
+    # ---- R8 'infallible methods panic, never abort': nothing in the crate calls an aborting primitive (std's handle_alloc_error,
+    # process::abort, intrinsics::abort); the crate's own handle_alloc_error must stay a panic
+    ABORTS = ('alloc::alloc::handle_alloc_error', 'std::process::abort', 'core::intrinsics::abort', 'std::alloc::handle_alloc_error', 'core::panicking::panic_nounwind', 'core::panicking::panic_cannot_unwind')
+    nab = 0
+    for b in db.fn_bodies():
+        for bi, t in db.calls(b):
+            c = t['callee']
+            p_ = c.get('path') or ''
+            if not c.get('local') and any(p_ == a or p_.endswith('::' + a.split('::')[-1]) and a.split('::')[-1] in ('abort',) and 'process' in p_ for a in ABORTS) or (not c.get('local') and p_ in ABORTS):
+                nab += 1
+                ctx.violation('R8', arena.short(b['id']), 'aborts:' + p_.split('::')[-1], '%s calls %s, which aborts the process instead of unwinding: an infallible method would abort where its fallible twin returns Err' % (arena.short(b['id']), p_), t.get('span'))
+    if not nab:
+        ctx.ok('R8', 'no function of the crate calls an aborting primitive', 'call inventory over %d bodies' % len(db.fn_bodies()))
+    hb = [b for b in db.fn_bodies() if b['kind'] == 'fn' and b['meta'].get('name') == 'handle_alloc_error' and (b.get('span') or '').startswith('src/alloc.rs')]
+    if hb:
+        Ih, rh = arena.run_fn(ctx, hb[0]['id'], config)
+        pan = [e for e in rh.events if e.kind in ('diverge', 'panic') and 'panic' in (e.callee or '')]
+        if pan and rh.ret in (None, ('never',)) or pan:
+            ctx.ok('R8', "the crate's handle_alloc_error panics (unwinds)", 'diverges through core::panicking')
+        else:
+            ctx.violation('R8', 'alloc::handle_alloc_error', 'not-a-panic', "the crate's handle_alloc_error no longer panics: allocation failure in an infallible collection method must unwind", hb[0].get('span'))
+    elif config != 'rel-default':
+        ctx.anchor_missing('R8', 'alloc::handle_alloc_error')
     # ---- R4 debug builds
     if config == 'rel-all':
         check_debug(ctx)
@@ -272,7 +300,7 @@ DEBUG_JUSTIFIED = [
     # (owner function, regex on the condition shape, why the debug-only check cannot fire on a try_* path although the lemma library cannot show it)
     ('Bump::new_chunk_memory_details', r'Assert\(Overflow\(Add', 'chunk sizing adds OVERHEAD/FOOTER_SIZE to values bounded by the Layout invariant and by 2x the current chunk (A1, tabled in C19)'),
     ('Bump::new_chunk', r'Assert\(Overflow\(Add', 'allocated_bytes accumulates sizes of live blocks: bounded by the address space'),
-    ('Bump::alloc_layout_slow', r'mod\(load\[\*\(payload\(iter_any', 'the new chunk was requested with an alignment the request alignment divides (C04.O3, A4)'),
+    ('Bump::alloc_layout_slow', r'mod\(load\[\*\(\(?(payload\(iter_any|galloc\()', 'the new chunk was requested with an alignment the request alignment divides (C04.O3, A4)'),
     ('Bump::alloc_layout_slow', r'is_some\(phi', 'the retry on the fresh chunk succeeds because the chunk was sized for the request (C01.O5); for align > 16 this needs number theory outside the lemma set (stated as not decided)'),
     ('Bump::try_alloc_slice_fill_with', r'eq\(&, &\)', 'Layout::for_value(result) == Layout::array::<T>(len): same element type and count'),
     ('Bump::try_alloc_with', r'Assert\((Null|Misaligned)PointerDerefer', 'rustc UB check on &mut *p for p returned by try_alloc_layout: non-null and aligned to align_of::<T>() (C04.O2, C01.O2)'),
@@ -295,7 +323,9 @@ def debug_sites(ctx, config='dbg-all'):
         r = I.run_entry(b['id'])
         for e in r.events:
             if e.kind in ('assert_open', 'assert_discharged'):
-                shape = sorted((f[0],) + tuple(norm.sub('', show(x))[:70] for x in f[1:]) for f in e.extra['added'] if f[0] in ('lt', 'le', 'eq', 'ne', 'true', 'nottrue'))
+                # the tested condition itself first, facts derived from it (through the alternatives of a phi) after
+                shape = sorted(((f[0],) + tuple(norm.sub('', show(x))[:70] for x in f[1:]) for f in e.extra['added'] if f[0] in ('lt', 'le', 'eq', 'ne', 'true', 'nottrue')),
+                               key=lambda f: (f[0] not in ('true', 'nottrue'), f))
                 k = (owner(I, e)[0], str(shape[:2]))
                 (done if e.kind == 'assert_discharged' else opened).setdefault(k, []).append((b['meta']['name'], e))
             elif e.kind == 'assert' and not is_c(e.val):
